@@ -339,7 +339,7 @@ func (c *powerRun) power() string {
 	go func() { done <- cmd.Wait() }()
 	select {
 	case <-done:
-	case <-time.After(120 * time.Second):
+	case <-time.After(patience(120 * time.Second)):
 		cmd.Process.Kill()
 		<-done
 		return "power timeout"
